@@ -1,5 +1,6 @@
 pub mod bb;
 pub mod gen;
+pub mod hist;
 pub mod model;
 pub mod props;
 pub mod runner;
